@@ -385,7 +385,7 @@ pub fn c05(a: &Args) {
     let shards = a.usize("shards", 4).max(1);
     let seed = a.u64("seed", 0);
     let thorough = a.str("tier", "quick") == "thorough";
-    let scale = a.u64("scale", if thorough { 5 } else { 1 });
+    let scale = a.u64("scale", if thorough { 8 } else { 1 });
     let ml_limit = a.usize("ml-cells", 2600);
     let mut ctx = Ctx { out: (0..shards).map(|i| Out::create(&format!("{prefix}-{i}.ndjson"))).collect(), bytes: vec![0; shards], id: 0, counts: Default::default(), files: vec![] };
     let only = a.str("only", "");
